@@ -8,4 +8,5 @@ mkdir -p .build .work replays evidence
 cd harness
 go vet -tags verif ./... 
 go test -c -tags verif -o ../.build/props.test ./props/
+go test -c -race -tags verif -o ../.build/props.race.test ./props/
 echo "setup ok: $(go version)"
